@@ -74,9 +74,9 @@ func (self *Transformer) infixExpr(node ast.AnalyzedInfixExpression, needsToBeSt
 		}
 
 		// Method 1: automatic unrolling during runtime.
-		lhsInitIdent := pAst.NewSpannedIdent("lhs_init", node.Range)
-		resultIdent := pAst.NewSpannedIdent("mul_res", node.Range)
-		countIdent := pAst.NewSpannedIdent("mul_count", node.Range)
+		lhsInitIdent := pAst.NewSpannedIdent(self.freshName("lhs_init"), node.Range)
+		resultIdent := pAst.NewSpannedIdent(self.freshName("mul_res"), node.Range)
+		countIdent := pAst.NewSpannedIdent(self.freshName("mul_count"), node.Range)
 
 		var resultInitExpr ast.AnalyzedExpression
 		if node.Lhs.Type().Kind() == ast.IntTypeKind {
